@@ -558,10 +558,6 @@ func VerifC03ReaderStartsDuringAdvance() {
 	delivered := make(chan int64, 16)
 	vSchedExplore(vParam("preemptions", 1))
 	go func() {
-		l.SetHighWatermark(h1)
-		done <- struct{}{}
-	}()
-	go func() {
 		r, err := l.NewReader(start, false)
 		if err != nil {
 			delivered <- -200
@@ -579,6 +575,12 @@ func VerifC03ReaderStartsDuringAdvance() {
 			vAssert(off <= l.HighWatermark(), "no message above the high watermark is delivered")
 			delivered <- off
 		}
+	}()
+	// (started second: with the reader first in line one pre-emption is enough
+	// to put the advance between two steps of the reader's set-up)
+	go func() {
+		l.SetHighWatermark(h1)
+		done <- struct{}{}
 	}()
 	<-done
 	vSchedExplore(0)
